@@ -90,6 +90,36 @@ def fieldWordOpd (f w : Str) : Opd :=
 def fieldPhraseOpd (f body : Str) : Opd :=
   ⟨f ++ ':' :: '"' :: (body ++ ['"']), .leaf (.literal (some f) body .double 0 false), 1⟩
 
+/-- what may follow the closing quote of a phrase: nothing, a slop `~digits`, or the prefix star -/
+inductive Sfx where
+  | none | slop (ds : Str) | pfx
+
+def Sfx.text : Sfx → Str
+  | .none => []
+  | .slop ds => '~' :: ds
+  | .pfx => ['*']
+
+def Sfx.slopVal : Sfx → Nat
+  | .slop ds => natOfDigits ds
+  | _ => 0
+
+def Sfx.isPfx : Sfx → Bool
+  | .pfx => true
+  | _ => false
+
+/-- a slop is a non-empty digit string whose value fits the slop type -/
+def WFSfx : Sfx → Prop
+  | .slop ds => ds ≠ [] ∧ (∀ d ∈ ds, d.isDigit = true) ∧ natOfDigits ds < 2 ^ Gen.GRAMMAR_SLOP_BITS
+  | _ => True
+
+/-- `"phrase"~2` / `"phrase"*` as an operand -/
+def phraseSfxOpd (body : Str) (x : Sfx) : Opd :=
+  ⟨'"' :: (body ++ '"' :: x.text), .leaf (.literal none body .double x.slopVal x.isPfx), 1⟩
+
+/-- `name:"phrase"~2` / `name:"phrase"*` as an operand -/
+def fieldPhraseSfxOpd (f body : Str) (x : Sfx) : Opd :=
+  ⟨f ++ ':' :: '"' :: (body ++ '"' :: x.text), .leaf (.literal (some f) body .double x.slopVal x.isPfx), 1⟩
+
 /-- `NOT x` (`k + 1` blanks after the keyword) as an operand -/
 def notOpd (k : Nat) (o : Opd) : Opd :=
   ⟨'N' :: 'O' :: 'T' :: ' ' :: (spaces k ++ o.text), o.leaf.unary .mustNot, o.cost + 1⟩
